@@ -1,3 +1,3 @@
 SPECIFICATION Spec
-INVARIANT MissingIsVarAbsent MissingSomeCounts ExportCases
+INVARIANT MissingIsVarAbsent MissingSomeCounts AgreesWithVarCorpus ExportCases
 CHECK_DEADLOCK FALSE
